@@ -191,14 +191,30 @@ def check(ctx):
     # ... and only the visitors of constructs that C itself ends with ';' (the jump statements and the null statement) return text that ends in ';':
     # every other construct gets its terminator from the place that uses it as a statement, so a visitor that adds one of its own prints two - the
     # second is an empty statement (or a syntax error inside an expression) when the text is parsed again
-    OWN_TERMINATOR = {"EmptyStatement", "Return", "Break", "Continue", "Goto"}
+    # (C99 6.8.3 null statement, 6.8.6 jump statements, 6.8.5 `do statement while ( expression ) ;` - the only compound form whose syntax ends in ';')
+    OWN_TERMINATOR = {"EmptyStatement", "Return", "Break", "Continue", "Goto", "DoWhile"}
     for vname, vfn in sorted(g.methods.items()):
         if not vname.startswith("visit_"):
             continue
+        parent_list = {}
+        for blk in ast.walk(vfn):
+            for fld in ("body", "orelse", "finalbody"):
+                sts = getattr(blk, fld, None)
+                if isinstance(sts, list):
+                    for i_, st in enumerate(sts):
+                        parent_list[id(st)] = (sts, i_)
         for r_ in ast.walk(vfn):
             if not (isinstance(r_, ast.Return) and r_.value is not None):
                 continue
             e_ = r_.value
+            if isinstance(e_, ast.Name) and id(r_) in parent_list:
+                # `s += ");"` followed by `return s`: the tail is the tail of the last piece added
+                sts, i_ = parent_list[id(r_)]
+                prev = sts[i_ - 1] if i_ > 0 else None
+                if isinstance(prev, ast.AugAssign) and isinstance(prev.op, ast.Add) and isinstance(prev.target, ast.Name) and prev.target.id == e_.id:
+                    e_ = prev.value
+                elif isinstance(prev, ast.Assign) and len(prev.targets) == 1 and isinstance(prev.targets[0], ast.Name) and prev.targets[0].id == e_.id:
+                    e_ = prev.value
             while isinstance(e_, ast.BinOp):
                 e_ = e_.right
             tail = e_.value if isinstance(e_, ast.Constant) and isinstance(e_.value, str) else (str(e_.values[-1].value) if isinstance(e_, ast.JoinedStr) and e_.values and isinstance(e_.values[-1], ast.Constant) else "")
